@@ -47,6 +47,8 @@ def obligations():
                  "every non-anchor connected component is handed over as one molecule (so it is wrapped as a unit)", 600))
     o.append(Obl("C11.python.bond_order_after_edit", "xh", "harness.c11_py", "bond_order_after_edit", ["mdtraj.core.trajectory.Trajectory.make_molecules_whole", "Trajectory._bonds_in_assembly_order", "Trajectory.atom_slice", "Topology.add_bond"],
                  "re-image, then add any of 6 bonds in place or atom_slice(inplace=True), then re-image", "the second call walks the current bond graph (no stale bond list)", 600))
+    o.append(Obl("C11.python.explicit_sorted_bonds", "xh", "harness.c11_py", "explicit_sorted_bonds", ["mdtraj.core.trajectory.Trajectory.make_molecules_whole", "image_molecules"], "caller-supplied bond lists in valid assembly orders that are not monotone in the first index (catalogue of 4), both entry points",
+                 "the routine receives the caller's rows in the caller's order (the kernel needs (placed atom, atom to place) order; re-sorting breaks it)", 200))
     return o
 
 
